@@ -292,7 +292,7 @@ def observe(R, label, form_label, args, call, exempt=()):
     before = {k: snap(v) for k, v in args.items()}
     raised = None
     from ..run import Hang
-    remaining = signal.setitimer(signal.ITIMER_REAL, CALL_BUDGET_S)[0]
+    remaining = signal.setitimer(signal.ITIMER_REAL, CALL_BUDGET_S, 2.0)[0]
     try:
         call()
     except Hang:
@@ -305,7 +305,7 @@ def observe(R, label, form_label, args, call, exempt=()):
             raise
         raised = type(err).__name__
     finally:
-        signal.setitimer(signal.ITIMER_REAL, max(1.0, remaining - CALL_BUDGET_S) if remaining else 0)
+        signal.setitimer(signal.ITIMER_REAL, max(1.0, remaining - CALL_BUDGET_S) if remaining else 0, 2.0)
     after = {k: snap(v) for k, v in args.items()}
     R.stat("raised" if raised else "returned")
     for k in args:
